@@ -105,10 +105,21 @@ func build(k kase) (*sharder.DeterministicSharder, error) {
 		return nil, err
 	}
 	if k.prior != nil {
+		// the node has been answering lookups under the earlier list (every ID, the first one asked last, so that
+		// the first lookup after the update repeats the last one before it): nothing of those answers may survive
+		for _, id := range warmIDs {
+			s.WhichShard(id)
+		}
+		if len(warmIDs) > 0 {
+			s.WhichShard(warmIDs[0])
+		}
 		mock.UpdatePeers(addrs(k.list)) // fires the registered callback -> loadPeerList
 	}
 	return s, nil
 }
+
+// warmIDs: the IDs looked up under the earlier peer list of an "after-peer-update" case (set in main).
+var warmIDs []string
 
 func contains(s []int, x int) bool {
 	for _, v := range s {
@@ -123,6 +134,7 @@ func main() {
 	r := ev.New("C17", "exploration")
 	ids := traceIDs(ev.Pick(r, 4096, 65536))
 	allPriors := r.Thorough()
+	warmIDs = ids
 
 	// ---- enumerate the cases ----
 	var cases []kase
